@@ -214,10 +214,7 @@ func c19(r *core.Run) {
 			// file exists ∧ backup name known ⇒ renamed before create
 			isStat := core.CallTo("os.Stat")
 			_, statFailed := core.EdgesOf(f, core.ErrNil(1, isStat))
-			isEmptyStr := func(v ssa.Value) bool { c, ok := core.ConstString(v); return ok && c == "" }
-			noBackup := core.AnyOf(core.Cmp(token.GTR, core.IsLenOf(core.FieldLoad("RotateLogger.backup")), core.IsConstInt(0)),
-				core.Cmp(token.NEQ, core.IsLenOf(core.FieldLoad("RotateLogger.backup")), core.IsConstInt(0)),
-				core.Cmp(token.NEQ, core.FieldLoad("RotateLogger.backup"), isEmptyStr))
+			noBackup := c19NonEmpty(core.FieldLoad("RotateLogger.backup")) // len(l.backup) > 0 in any spelling
 			_, noBackupE := core.EdgesOf(f, noBackup)
 			if w, ok := core.Reach(core.Q{From: []core.At{core.Entry(f)}, Target: isCreate, Blocked: isRename, Cut: core.CutSet(statFailed, noBackupE)}); ok {
 				o.Fail(p.InstrPos(w), "the existing log file is re-created (truncated) without having been renamed to its backup")
@@ -542,7 +539,10 @@ func c19(r *core.Run) {
 				o.Fail(p.InstrPos(s), "the sort is not over the matched backups")
 			}
 		}
-		if w := core.Precedes(f, isSort, core.Is(slices...)); w != nil && len(slices) > 0 {
+		// (decided per (block, predecessor): with the listing step factored out as
+		// `files, err := r.list(); if err != nil { return }`, the failed Glob joins the sorted list
+		// in a φ-pair (nil, err) and leaves through the caller's error test, never towards the slices)
+		if w := c19Reach(f, []core.At{core.Entry(f)}, core.Is(slices...), isSort, nil); w != nil && len(slices) > 0 {
 			o.Fail(p.InstrPos(w), "the backups are sliced before they are sorted")
 		}
 		a := &core.Alg{Name: func(v ssa.Value) string {
